@@ -9,6 +9,7 @@
 -/
 import Scico.Proofs.OpAlgReject
 import Scico.Proofs.OpAlgStackTree
+import Scico.Proofs.OpAlgPlain
 
 namespace Scico.Props.C05
 open Scico.OpAlg Scico.DType
@@ -19,7 +20,9 @@ variable {K : Type} [Field K] [StarRing K] [HasRe K]
 
 /-- **Forward map.**  For every linear expression tree that scico accepts, the closure it builds
     (generic or closed-form, whatever the classes of the operands and their order) computes
-    `x ↦ den e · x`, an array of the declared output size. -/
+    `x ↦ den e · x`, an array of the declared output size.
+    (`PlainDiagProducts` only restricts `Diagonal @ Diagonal` products on *BlockArray* shapes; for
+    trees over plain shapes it holds automatically, see `C05_run_eq_den_plain`.) -/
 theorem C05_run_eq_den (e : LExpr K) (m : Meta) (hm : infer e = .ok m) (hl : Lin e)
     (hp : PlainDiagProducts e) (hK : RealK K ∨ AllC e) (x : Vc K) :
     (∀ i, ((run e).eval x).get i
@@ -43,6 +46,24 @@ theorem C05_adj_eq_denH (e : LExpr K) (m : Meta) (hm : infer e = .ok m) (hl : Li
   subst hmd
   rw [hr]
   exact ⟨fun j => hS.ad y j, hS.adSz y⟩
+
+/-- **Plain (non-block) shapes: no side condition.**  For every accepted linear expression whose leaves
+    have plain shapes — including `Diagonal @ Diagonal` with arbitrary numpy broadcasting between the two
+    diagonal arrays and non-square broadcasting diagonals — forward and adjoint closures are
+    `den e · x` and `(den e)ᴴ · y`, and `matrix_shape = dims e`.  The hypotheses are syntactic. -/
+theorem C05_run_eq_den_plain (e : LExpr K) (m : Meta) (hm : infer e = .ok m) (hl : Lin e)
+    (hs : PlainShapes e) (hK : RealK K ∨ AllC e) (x y : Vc K) :
+    (∀ i, ((run e).eval x).get i
+        = if i < m.outShape.size then mulVec m.inShape.size (den e) x.get i else 0)
+    ∧ (∀ j, ((run e).adj y).get j
+        = if j < m.inShape.size then mulVecH m.outShape.size (den e) y.get j else 0)
+    ∧ m.matrixShape = dims e := by
+  have hp := plainShapes_products e hs
+  obtain ⟨o, hb, hmd, hr⟩ := of_infer hm
+  obtain ⟨hS, h1, h2⟩ := build_sound e o hl hp hK hb
+  subst hmd
+  rw [hr]
+  exact ⟨fun i => hS.ev x i, fun j => hS.ad y j, Prod.ext h1 h2⟩
 
 /-- the declared `matrix_shape` is the shape of the denoted matrix, and a linear expression is
     always built as a `LinearOperator` -/
@@ -215,6 +236,15 @@ example : ∃ o, buildVStack true [exM, LExpr.ident (.plain [3]) .f64] false = .
     ∧ o.md.outShape = .nested [[3], [3]] := ⟨_, rfl, rfl⟩
 example : ∃ o, buildDStack true [exM, LExpr.ident (.plain [3]) .f64] true false = .ok o
     ∧ o.md.inShape = .plain [2, 3] ∧ o.md.outShape = .nested [[3], [3]] := ⟨_, rfl, rfl, rfl⟩
+
+/-- `Diagonal(d₁ of shape (2,3)) @ Diagonal(d₂ of shape (3,), input_shape=(2,3))`: the two diagonal arrays
+    broadcast against each other (outside the former side condition, inside `C05_run_eq_den_plain`) -/
+def exBD : LExpr ℚ :=
+  .matmul (.diag (.plain [2, 3]) .f64 none none (fun i => (i : ℚ) + 1))
+          (.diag (.plain [3]) .f64 (some (.plain [2, 3])) none (fun i => 2 * (i : ℚ) - 1))
+example : PlainShapes exBD ∧ Lin exBD := by simp [exBD, PlainShapes, Lin, Shape.isPlain]
+example : ∃ m, infer exBD = .ok m ∧ m.cls = .diag ∧ m.datShape = .plain [2, 3] := ⟨_, rfl, rfl, rfl⟩
+example : PlainShapes exE := by simp [exE, exM, exD, PlainShapes, Shape.isPlain]
 
 end examples
 
